@@ -721,6 +721,36 @@ fn replace_first(s: &str, from: &str, to: &str) -> Option<String> {
     s.find(from).map(|p| format!("{}{}{}", &s[..p], to, &s[p + from.len()..]))
 }
 
+/// `std offset dst [offset]` (the part of a rule string before the first comma) split into its four
+/// fields; `None` when the text does not have that shape.
+fn split_rule_head(head: &str) -> Option<(&str, &str, &str, &str)> {
+    fn name_len(s: &str) -> Option<usize> {
+        if s.starts_with('<') {
+            s.find('>').map(|p| p + 1)
+        } else {
+            let n = s.bytes().take_while(|c| c.is_ascii_alphabetic()).count();
+            if n == 0 { None } else { Some(n) }
+        }
+    }
+    fn off_len(s: &str) -> usize {
+        s.bytes().take_while(|c| c.is_ascii_digit() || matches!(c, b':' | b'+' | b'-')).count()
+    }
+    let n1 = name_len(head)?;
+    let (std_name, rest) = head.split_at(n1);
+    let o1 = off_len(rest);
+    if o1 == 0 {
+        return None;
+    }
+    let (std_off, rest) = rest.split_at(o1);
+    let n2 = name_len(rest)?;
+    let (dst_name, rest) = rest.split_at(n2);
+    let o2 = off_len(rest);
+    if o2 != rest.len() {
+        return None;
+    }
+    Some((std_name, std_off, dst_name, rest))
+}
+
 /// Constructed out-of-range variants of a valid `std offset dst [offset],start[/time],end[/time]` string.
 fn out_of_range_variants(rule: &Rule, extended: bool, rng: &mut Rng) -> Vec<(String, String)> {
     use crate::model::Day;
@@ -783,6 +813,19 @@ fn out_of_range_variants(rule: &Rule, extended: bool, rng: &mut Rng) -> Vec<(Str
             out.push((format!("{}\u{e9}{}", name, rest), "name_non_ascii".to_string()));
             let after_off = rest.find(|c: char| c.is_ascii_alphabetic() || c == '<').unwrap_or(rest.len());
             out.push((format!("{}{}", name, &rest[after_off..]), "offset_missing".to_string()));
+        }
+    }
+    // out-of-range std / dst offsets inside a two-name rule (the dst offset is optional, but
+    // when it is written it has to be a valid one: an error there must not turn into the default)
+    if let Some(comma) = base.find(',') {
+        let (head, tail) = base.split_at(comma);
+        if let Some((std_name, std_off, dst_name, dst_off)) = split_rule_head(head) {
+            for bad in ["25", "5:60", "5:00:60", "-25", "+25:00"] {
+                out.push((format!("{}{}{}{}{}", std_name, std_off, dst_name, bad, tail), "field_hour_out_of_range".to_string()));
+            }
+            for bad in ["25", "5:60", "-5:00:60"] {
+                out.push((format!("{}{}{}{}{}", std_name, bad, dst_name, dst_off, tail), "field_hour_out_of_range".to_string()));
+            }
         }
     }
     out.push((format!("{}x", base), "trailing_text".to_string()));
